@@ -28,12 +28,40 @@ def make_prior(spec):
     raise ValueError(fam)
 
 
-def derive(p, spec, d):
-    """Priors that were not built by their own constructor call (review item 4)."""
+def pre_use(p):
+    """SWEEP class 1: USE the object before it is derived from / changed: value_for, the cdf, the unit limits, a draw."""
+    for u in (0.25, 0.5, 0.75):
+        try:
+            p.value_for(u)
+            p.unit_value_for(p.value_for(u, ignore_prior_limits=True))
+        except BaseException:  # noqa
+            pass
+    try:
+        _ = p.lower_unit_limit, p.upper_unit_limit, p.limits, p.width
+        p.random()
+    except BaseException:  # noqa
+        pass
+
+
+def derive(p, spec, d, use=True):
+    """Priors that were not built by their own constructor call (review item 4).  With use=True the prior is used
+    first (use - derive - use again); use=False is the fresh route the answers are compared with."""
     import pickle
     from autofit.mapper.prior.abstract import Prior
     how = d["how"]
-    if how == "with_limits":                       # instance method: keeps the message of p
+    if use:
+        pre_use(p)
+    if how == "set_limits":
+        # use the object, change its public limit attributes, use it again.  The message stays, the gate
+        # (Prior.assert_within_limits, the rounding guard of UniformPrior, the unit limits of random) must follow the change
+        p.lower_limit = unhex(d["a"])
+        p.upper_limit = unhex(d["b"])
+        return p
+    if how == "with_message":
+        # Prior.with_message (expectation propagation, prior passing): copy of the prior around the message of another
+        # prior of the same family; limits and class of p
+        return p.with_message(make_prior(d["msg"]).message)
+    if how == "with_limits":                       # instance method (since d755794: a constructor call with the tightened limits)
         return p.with_limits(unhex(d["a"]), unhex(d["b"]))
     if how == "cls_with_limits":                   # GaussianPrior / LogUniformPrior override it as a classmethod
         return type(p).with_limits(unhex(d["a"]), unhex(d["b"]))
@@ -59,21 +87,45 @@ def describe(p):
     return out
 
 
-def unit_arg(o):
-    u = unhex(o["u"])
+def unit_arg(o, key="u"):
+    """The unit value (or physical value) in the container / numeric type the observation asks for."""
+    import numpy as np
+    u = unhex(o[key])
     ut = o.get("ut")
     if ut == "int":
         return int(u)
+    if ut == "bool":
+        return bool(u)
     if ut == "np":
-        import numpy as np
         return np.float64(u)
+    if ut == "a0":
+        return np.array(u)                       # 0-d array
+    if ut == "a1":
+        return np.array([u])                     # 1-element array (a slice of a unit cube)
+    if ut == "f32":
+        return np.float32(u)                     # the generator only asks for values float32 represents exactly
+    if ut == "a1f32":
+        return np.array([u], dtype=np.float32)
     return u
 
 
+def scalar(v):
+    """The number inside a result (float, numpy scalar, 0-d or 1-element array)."""
+    import numpy as np
+    if isinstance(v, np.ndarray):
+        if v.size != 1:
+            raise ValueError("result has %d elements" % v.size)
+        return float(v.reshape(-1)[0])
+    return float(v)
+
+
 def guarded(f):
+    import warnings
     try:
-        v = f()
-        return {"ok": hexf(v), "type": type(v).__name__}
+        with warnings.catch_warnings():
+            warnings.simplefilter("ignore")
+            v = f()
+        return {"ok": hexf(scalar(v)), "type": type(v).__name__}
     except BaseException as e:  # noqa
         return {"exc": exc_name(e), "msg": str(e)[:160]}
 
@@ -81,12 +133,14 @@ def guarded(f):
 def run_obs(p, o):
     t = o["t"]
     if t == "value":
+        if o.get("via") == "float":
+            return guarded(lambda: float(p))                          # Prior.__float__ = value_for(0.5)
         if o.get("kw", True):
             return guarded(lambda: p.value_for(unit_arg(o), ignore_prior_limits=bool(o["ignore"])))
         assert not o["ignore"]
         return guarded(lambda: p.value_for(unit_arg(o)))          # default argument: limits enforced
     if t == "raw":
-        return guarded(lambda: p.message.value_for(unhex(o["u"])))
+        return guarded(lambda: p.message.value_for(unit_arg(o)))
     if t == "rt":
         r = guarded(lambda: p.value_for(unhex(o["u"]), ignore_prior_limits=True))
         if "ok" not in r:
@@ -96,12 +150,18 @@ def run_obs(p, o):
             return {"exc": w["exc"], "msg": w["msg"], "at": "unit_value_for"}
         return {"v": r["ok"], "w": w["ok"]}
     if t == "unit":
-        return guarded(lambda: p.unit_value_for(unhex(o["x"])))
+        return guarded(lambda: p.unit_value_for(unit_arg(o, "x")))
     if t == "limits":
         a = guarded(lambda: p.lower_unit_limit)
         b = guarded(lambda: p.upper_unit_limit)
         if "ok" in a and "ok" in b:
-            return {"lower": a["ok"], "upper": b["ok"]}
+            out = {"lower": a["ok"], "upper": b["ok"]}
+            # second route to the same numbers (SWEEP class 3): the cdf of the limits in force
+            a2 = guarded(lambda: p.unit_value_for(p.lower_limit))
+            b2 = guarded(lambda: p.unit_value_for(p.upper_limit))
+            out["lower_direct"] = a2.get("ok", a2.get("exc"))
+            out["upper_direct"] = b2.get("ok", b2.get("exc"))
+            return out
         return a if "exc" in a else b
     if t == "random":
         rr = oracle.first_random(o["seed"])
@@ -119,13 +179,45 @@ def run_obs(p, o):
 def run_case(c):
     if c["kind"] == "prior":
         try:
-            p = make_prior(c["prior"])
+            p0 = p = make_prior(c["prior"])
             if c.get("derived"):
-                p = derive(p, c["prior"], c["derived"])
+                p = derive(p0, c["prior"], c["derived"])
         except BaseException as e:  # noqa
             return {"ctor_exc": exc_name(e), "msg": str(e)[:160]}
         res = [run_obs(p, o) for o in c["obs"]]
-        return {"obs": res, "described": describe(p),
+        # SWEEP class 1: every answer again from the same object (reverse order, after all the other uses incl. the
+        # random draws) and from a fresh object built the same way: the harness demands identical answers
+        keys = ("ok", "exc", "v", "w", "lower", "upper", "r")
+        pick = lambda x: {k: x[k] for k in keys if k in x}
+        history = {"again": [], "fresh": [], "original": []}
+        for k in reversed(range(len(res))):
+            r2 = run_obs(p, c["obs"][k])
+            if pick(r2) != pick(res[k]):
+                history["again"].append({"k": k, "first": pick(res[k]), "second": pick(r2)})
+        try:
+            p2 = make_prior(c["prior"])
+            if c.get("derived"):
+                p2 = derive(p2, c["prior"], c["derived"], use=False)      # fresh route: nothing was used before
+            for k in range(len(res)):
+                r3 = run_obs(p2, c["obs"][k])
+                if pick(r3) != pick(res[k]):
+                    history["fresh"].append({"k": k, "first": pick(res[k]), "second": pick(r3)})
+        except BaseException as e:  # noqa
+            history["fresh"].append({"k": -1, "first": None, "second": {"exc": exc_name(e), "msg": str(e)[:160]}})
+        # the prior that was derived FROM keeps answering like a fresh prior with its parameters
+        if c.get("derived") and p0 is not p:
+            try:
+                p3 = make_prior(c["prior"])
+                for k, o in enumerate(c["obs"]):
+                    if o["t"] in ("limits", "random", "unit") or (o["t"] == "value" and k % 3 == 0):
+                        a, b = run_obs(p0, o), run_obs(p3, o)
+                        if pick(a) != pick(b):
+                            history["original"].append({"k": k, "first": pick(b), "second": pick(a)})
+            except BaseException as e:  # noqa
+                history["original"].append({"k": -1, "first": None, "second": {"exc": exc_name(e), "msg": str(e)[:160]}})
+        for key in history:
+            history[key] = history[key][:6]
+        return {"obs": res, "history": history, "described": describe(p),
                 "table": oracle.tables_for_prior(c.get("msg_prior") or c["prior"], c["obs"], res, gate=c.get("gate_prior"))}
     if c["kind"] == "vector":
         try:
@@ -133,7 +225,10 @@ def run_case(c):
         except BaseException as e:  # noqa
             return {"ctor_exc": exc_name(e), "msg": str(e)[:160]}
         names = ["p%02d" % k for k in c["attr_order"]]
-        model = af.Collection(**{"p%02d" % k: priors[k] for k in c["attr_order"]})
+        attrs = {"p%02d" % k: priors[k] for k in c["attr_order"]}
+        for j, k in enumerate(c.get("share", [])):                 # SWEEP class 4: one prior under two (or more) paths
+            attrs["%s%02d" % ("a" if j % 2 else "s", j)] = priors[k]
+        model = af.Collection(**attrs)
         us = [unhex(u) for u in c["us"]]
         ignore = bool(c["ignore"])
         try:
